@@ -28,6 +28,8 @@ RULE = ("statement programs of every kind (select / insert / insert..select / up
 ASSUMPTIONS = [
     "admissible orders keep: calls to the same clause, into vs select, on_conflict < handler < where and any where vs on_conflict, update/delete vs select, "
     "as_select vs columns, from_ before joins, into before columns/insert/on_conflict, DML marker before returning, pagination setters among themselves, set-operation creation as a barrier",
+    "a call with a column-name string (select / groupby / orderby) made before the first from_() may raise (the library resolves the name against the FROM item when the call "
+    "is made and says so for select: 'no FROM table specified'); such an order is skipped when it raises and compared like any other when it renders",
     "clause-order tables record the library's documented dialect forms (CHANGELOG / tests) - C13 checks the library follows one table per class in every call order",
     "vendor-only clauses (index hints, PREWHERE, WITH TOTALS, ROLLUP, FOR UPDATE, temporal, system versioning, UNLOGGED) are outside the SQLite engine check",
 ]
@@ -82,9 +84,8 @@ def before(a, b, steps, i, j):
         return True
     if mb == "from_" and ma == "join":
         return True
-    # string arguments resolve against the first FROM item / the insert table
-    if ma == "from_" and _has_str_arg(b):
-        return True
+    # (string arguments resolve against the first FROM item at call time: an order that makes such a call before from_() is allowed to
+    #  raise - see str_before_from() - but if it renders, it must render the same statement)
     if ma == "values" and False:
         return True
     if ma in ("insert", "replace") and mb in ("on_conflict",):
@@ -98,6 +99,18 @@ def before(a, b, steps, i, j):
 
 def _has_str_arg(step):
     return step[0] in ("select", "groupby", "orderby") and any(isinstance(a, list) and a and a[0] == "py" for a in step[1])
+
+
+def str_before_from(steps, order):
+    """does the order make a call with a column-name string before the first from_()?  The library resolves such names against the FROM
+    item when the call is made (select('a') says so: 'no FROM table specified'), so these orders may raise."""
+    seen_from = False
+    for i in order:
+        if steps[i][0] in ("from_", "into", "update"):
+            seen_from = True
+        elif not seen_from and _has_str_arg(steps[i]):
+            return True
+    return False
 
 
 def partial_order(steps):
@@ -218,6 +231,8 @@ def find_pair(p, base, target):
             if p["steps"][cur[0]][0] not in ENTRY:
                 continue
             s = snap_of(p, cur)
+            if "build" in s and str_before_from(p["steps"], cur):
+                continue
             if s != ref:
                 return (p["steps"][cur[j + 1]][0], p["steps"][cur[j]][0]), ref, s
     return None, ref, ref
@@ -407,6 +422,8 @@ def check(case):
         if sorted(order) != base:
             continue
         s = snap_of(p, order)
+        if "build" in s and str_before_from(p["steps"], order):
+            continue  # permitted to raise
         if s != ref:
             pair, a, b = find_pair(p, base, order)
             if pair is None:
